@@ -71,6 +71,14 @@ class Peg:
         self.norm(s)
 
     # ---- evaluation: returns (value, state); raises Fail ----
+    def ev_nosink(self, g, s):
+        old = self.sink
+        self.sink = False
+        try:
+            return self.ev(g, s)
+        finally:
+            self.sink = old
+
     def ev(self, g, s):
         if g == 'empty':
             return 'unit', s
@@ -137,8 +145,9 @@ class Peg:
             except Fail:
                 return self.ev(g[2], s)
         if k == 'maybe':
+            # control.rs maybe = unrecoverable(parser): the wrapped parser runs WITHOUT the sink
             try:
-                v, s1 = self.ev(g[1], s); return ['some', v], s1
+                v, s1 = self.ev_nosink(g[1], s); return ['some', v], s1
             except Fail:
                 return ['none'], s
         if k == 'reqif':
@@ -151,14 +160,14 @@ class Peg:
             return ['none'], s
         if k in ('implies', 'antecedent', 'consequent'):
             try:
-                l, s1 = self.ev(g[1], s)
+                l, s1 = self.ev_nosink(g[1], s)          # the antecedent is an optional parse: no sink
             except Fail:
                 return ['none'], s
             r, s2 = self.ev(g[2], s1)
             return ['some', ['pair', l, r] if k == 'implies' else (l if k == 'antecedent' else r)], s2
         if k == 'condimplies':
             try:
-                l, s1 = self.ev(g[1], s)
+                l, s1 = self.ev_nosink(g[1], s)
             except Fail:
                 return ['none'], s
             if self.vpeval(g[2], l):
@@ -170,7 +179,9 @@ class Peg:
             v, s2 = self.ev(g[-1], s1)
             s2 = s2.copy(); self.set_filter(s2, old)
             return v, s2
-        if k in ('raw', 'unrec', 'ctxpush'):
+        if k == 'unrec':
+            return self.ev_nosink(g[-1], s)
+        if k in ('raw', 'ctxpush'):
             return self.ev(g[-1], s)
         if k == 'stabilize':
             try:
@@ -243,16 +254,22 @@ class Peg:
                     raise
             self.emitted += 1
             kinds = rs[1:]
+            prev = None
             for j in self.deliverable(s, s.i, len(self.toks)):
                 if self.toks[j]['kind'] in kinds:
                     if rs[0] in ('before', 'beforeany'):
-                        return (['none'] if k in ('recover', 'recoverdelayed') else 'dflt'), St(j, s.flt, False)
+                        # the scan stops IN FRONT of the recovery token: the cursor stands behind the last token it consumed
+                        # (tokens the current filter hides between that token and the recovery token are not consumed - they
+                        # reappear if an enclosing filter_with / unfiltered restores a wider filter)
+                        s2 = s.copy() if prev is None else St(prev + 1, s.flt, False)
+                        return (['none'] if k in ('recover', 'recoverdelayed') else 'dflt'), s2
                     # after: the next token is the one following the recovery token; there must be one
                     s2 = St(j + 1, s.flt, False)
                     if self.first(s2) is None:
                         self.stale.add(id(g))
                         raise Fail('recover')
                     return (['none'] if k in ('recover', 'recoverdelayed') else 'dflt'), s2
+                prev = j
             raise Fail('recover')
         # ---- delimited lists (C11): segment by segment ----
         if k in ('list', 'listb', 'listdef', 'listbdef'):
